@@ -152,6 +152,8 @@ class RemoteServer():
                             if ctx_id in self.contexts:
                                 logger.warning('Context {} already exists', ctx_id)
                                 result = False
+                                # receiving the context has already spawned its helper process, do not leave it behind
+                                context.terminate(timeout=1)
                             else:
                                 self.contexts[ctx_id] = context
 
